@@ -2363,7 +2363,8 @@ sexp sexp_write_one (sexp ctx, sexp obj, sexp out, sexp_sint_t bound) {
            (sexp_lsymbol_length(obj) > 1 &&
             ((str[0] == '+' || str[0] == '-')
              && (sexp_isdigit((unsigned char)str[1]) ||
-                 str[1] == '.' || str[1] == 'i' ||
+                 str[1] == '.' ||
+                 sexp_tolower((unsigned char)str[1]) == 'i' ||
                  ((sexp_lsymbol_length(obj) > 3) &&
                   sexp_tolower((unsigned char)str[1]) == 'n' &&
                   sexp_tolower((unsigned char)str[2]) == 'a' &&
